@@ -824,6 +824,65 @@ fn run_pairs<B: FA>(run: &mut Run) {
     );
 }
 
+// 6. SEGMENT WIDTHS: main assertions are judged by the main width, auxiliary ones by the auxiliary width
+// ================================================================================================
+
+#[derive(Serialize, Deserialize, Clone, Debug)]
+pub struct WCase {
+    pub field: String,
+    pub main_w: usize,
+    pub aux_w: usize,
+    /// the assertion is handed in as an auxiliary-segment assertion
+    pub in_aux: bool,
+    pub col: usize,
+    pub kind: u8,
+}
+
+fn check_widths<B: FA>(c: &WCase, obs: &mut Obs) -> CheckResult {
+    let n = 16usize;
+    let ctx = AirContext::<B>::new_multi_segment(
+        TraceInfo::new_multi_segment(c.main_w, c.aux_w, 1, n, vec![]),
+        vec![TransitionConstraintDegree::new(1)],
+        vec![TransitionConstraintDegree::new(1)],
+        1,
+        1,
+        None,
+        ProofOptions::new(32, 8, 0, FieldExtension::None, 4, 31),
+    );
+    let v = B::from_u128(7);
+    let mk = |col: usize| match c.kind {
+        0 => Assertion::single(col, 3, v),
+        1 => Assertion::periodic(col, 1, 4, v),
+        _ => Assertion::sequence(col, 0, 8, vec![v, B::from_u128(9)]),
+    };
+    // the other segment gets a well-formed assertion on its column 0
+    let (main, aux) = if c.in_aux { (vec![mk(0)], vec![mk(c.col)]) } else { (vec![mk(c.col)], vec![mk(0)]) };
+    let width = if c.in_aux { c.aux_w } else { c.main_w };
+    let well_formed = c.col < width;
+    obs.label(if well_formed { "column-inside-its-segment" } else { "column-outside-its-segment" });
+    if c.col >= c.main_w.min(c.aux_w) && c.col < c.main_w.max(c.aux_w) {
+        obs.label("column-between-the-two-widths");
+    }
+    obs.nontrivial();
+    let cc = [B::from_u128(3), B::from_u128(5)];
+    let r = catch(|| BoundaryConstraints::<B>::new(&ctx, main.clone(), aux.clone(), &cc));
+    match (r, well_formed) {
+        (Ok(bc), true) => {
+            let groups = if c.in_aux { bc.aux_constraints() } else { bc.main_constraints() };
+            ensure!(
+                groups.iter().flat_map(|g| g.constraints().iter()).any(|k| k.column() == c.col),
+                "segment-width/constraint-missing",
+                "{c:?}: the assertion was accepted but no constraint on column {} exists in its segment",
+                c.col
+            );
+            Ok(())
+        },
+        (Err(_), false) => Ok(()),
+        (Ok(_), false) => Err(Fail::new("segment-width/ill-formed-accepted", format!("{c:?}: an assertion against column {} was accepted although its segment has {width} columns", c.col))),
+        (Err(p), true) => Err(Fail::new("segment-width/well-formed-refused", format!("{c:?}: an assertion against column {} of a segment with {width} columns was refused: {}", c.col, p.msg))),
+    }
+}
+
 pub fn run(run: &mut Run) {
     run.assume("trace-domain points are computed by the harness' integer reference field from the integer value of the published TWO_ADIC_ROOT_OF_UNITY constant (that constant's order is established by C07)");
     run.assume("x^n - 1 has exactly the n trace-domain points as simple roots (used to turn 'z(x) equals the product over the enforced steps at n+1 off-domain points' into 'z is non-zero on the exempt points')");
@@ -897,5 +956,26 @@ pub fn run(run: &mut Run) {
         true,
         ic.into_iter(),
         |c: &ICase, obs: &mut Obs| with_field!(c.field.as_str(), B => check_ill_formed::<B>(c, obs)),
+    );
+
+    // 6. segment widths
+    let mut wc = vec![];
+    for f in fields {
+        for (main_w, aux_w) in [(1usize, 1usize), (1, 3), (3, 1), (2, 2), (4, 2), (2, 5), (8, 3), (3, 8)] {
+            for in_aux in [false, true] {
+                for col in 0..=main_w.max(aux_w) {
+                    for kind in 0u8..3 {
+                        wc.push(WCase { field: f.to_string(), main_w, aux_w, in_aux, col, kind });
+                    }
+                }
+            }
+        }
+    }
+    run.enumerate(
+        "segment-widths",
+        "two-segment contexts with main / auxiliary widths (1,1) (1,3) (3,1) (2,2) (4,2) (2,5) (8,3) (3,8), one single / periodic / sequence assertion against column 0..max(width) handed in as main or as auxiliary assertion: BoundaryConstraints::new must accept it exactly when the column exists in ITS segment, and the constraint must then sit in that segment's groups; all cases non-trivial",
+        true,
+        wc.into_iter(),
+        |c: &WCase, obs: &mut Obs| with_field!(c.field.as_str(), B => check_widths::<B>(c, obs)),
     );
 }
